@@ -71,11 +71,19 @@ class Variant:
 
     @property
     def target_dir(self):
-        return os.path.join(WORK, "target-" + self.name)
+        # variants that differ only in HBS_LMS_* environment share one target directory (cargo rebuilds
+        # just hbs-lms and the harness); the binary is copied aside after every build
+        fam = "default" if not self.features else "-".join(self.features)
+        return os.path.join(WORK, "target-" + fam)
 
     @property
     def binary(self):
-        return os.path.join(self.target_dir, "release", "verif-harness")
+        if self.name == "default":
+            return os.path.join(self.target_dir, "release", "verif-harness")
+        return os.path.join(WORK, "bin", "verif-harness-" + self.name)
+
+    def describe(self):
+        return {"name": self.name, "features": list(self.features), "env": self.env}
 
 
 def build_harness(variant=None, timeout=1500):
@@ -93,6 +101,10 @@ def build_harness(variant=None, timeout=1500):
     if p.returncode != 0:
         sys.stdout.write(p.stdout.decode(errors="replace")[-4000:])
         raise ToolError("harness build failed for variant %s" % variant.name)
+    built = os.path.join(variant.target_dir, "release", "verif-harness")
+    if variant.binary != built:
+        os.makedirs(os.path.dirname(variant.binary), exist_ok=True)
+        shutil.copy2(built, variant.binary)
     return time.time() - t0
 
 
@@ -201,6 +213,19 @@ def selftest_primitives(workdir):
 # ------------------------------------------------------------------------------------------------
 # scenario groups -> harness -> TLC, sharded
 # ------------------------------------------------------------------------------------------------
+def limits_env(variant):
+    """the build-time limits of a harness variant, handed to the trace specification (TraceBytes!Env*)"""
+    env = {}
+    e = variant.env if variant else {}
+    if "HBS_LMS_MAX_ALLOWED_HSS_LEVELS" in e:
+        env["LIM_LEVELS"] = e["HBS_LMS_MAX_ALLOWED_HSS_LEVELS"].strip()
+    for key, pre in (("HBS_LMS_TREE_HEIGHTS", "LIM_H"), ("HBS_LMS_WINTERNITZ_PARAMETERS", "LIM_W")):
+        if key in e:
+            for i, v in enumerate(e[key].split(",")):
+                env["%s%d" % (pre, i + 1)] = v.strip()
+    return env
+
+
 def shard_groups(groups, nshards):
     """distribute groups (lists of commands) over shards, balancing by estimated cost"""
     shards = [[] for _ in range(nshards)]
@@ -250,8 +275,9 @@ def run_shard(tag, idx, groups, gidx, variant, trace_module, trace_cfg, workdir,
         ev_group.append(cur)
     verdict = os.path.join(sdir, "verdict.ndjson")
     t0 = time.time()
-    rc, out, st = run_tlc(trace_module, trace_cfg, os.path.join(sdir, "meta"),
-                          env={"TRACE": trace, "VERDICT": verdict}, timeout=tlc_timeout)
+    tenv = {"TRACE": trace, "VERDICT": verdict}
+    tenv.update(limits_env(variant))
+    rc, out, st = run_tlc(trace_module, trace_cfg, os.path.join(sdir, "meta"), env=tenv, timeout=tlc_timeout)
     t_t = time.time() - t0
     if not os.path.exists(verdict):
         sys.stdout.write(out[-6000:])
